@@ -61,12 +61,21 @@ struct MSpec {
   bool equal(const State& a, const State& b) const { return memcmp(a.v, b.v, sizeof a.v) == 0; }
   // erase(iterator) of an element with id 0 (default value inserted by operator[]): ids 0 are not unique, the
   // iterator may refer to an earlier, already removed incarnation -> the operation may also be a no-op
-  int alternatives(const Op& o) const { return o.kind == O_ERASE_IT && o.obs == 0 ? 2 : 1; }
+  // Weak executions (C03): verdicts that change nothing (absent, already present, a value seen by a lookup) need not
+  // fit one total order - a C++11-consistent execution may contain a cycle of happens-before and "did not see"
+  // edges between operations that do not synchronize. Successful insertions/removals, the identity of observed
+  // values and the final iteration stay exact; "absent although an insertion that nothing can undo happens-before"
+  // is checked separately.
+  bool weak = false;
+  int16_t id_key[256] = {};
+  bool valid(const Op& o) const { return o.obs == 0 || (o.obs > 0 && o.obs < 256 && id_key[o.obs] == o.key + 1); }
+  int alternatives(const Op& o) const { return (o.kind == O_ERASE_IT && o.obs == 0) || (weak && o.kind == O_INSERT && o.variant == 99) ? 2 : 1; }
   bool apply(State& s, const Op& o, int alt = 0) const {
     int& cur = s.v[o.key];
     switch (o.kind) {
     case O_INSERT:
       if (o.variant == 99) { // operator[]: inserts a default value (id 0) if absent
+        if (weak && alt == 1) return valid(o); // it saw an element: nothing changes
         if (cur == 0) {
           if (o.obs != 0) return false;
           cur = 1;
@@ -80,6 +89,7 @@ struct MSpec {
         cur = o.id + 1;
         return true;
       }
+      if (weak) return !o.has_obs || valid(o);
       if (cur == 0) return false;
       return !o.has_obs || cur == o.obs + 1;
     case O_ERASE:
@@ -88,12 +98,15 @@ struct MSpec {
         cur = 0;
         return true;
       }
-      return cur == 0;
+      return weak || cur == 0;
     case O_FIND:
     case O_YIELD:
+      if (weak) return !o.ok || valid(o);
       if (o.ok) return cur == o.obs + 1;
       return cur == 0;
-    case O_CONTAINS: return o.ok ? cur != 0 : cur == 0;
+    case O_CONTAINS:
+      if (weak) return true;
+      return o.ok ? cur != 0 : cur == 0;
     case O_ERASE_IT:
       if (alt == 1) return true;
       if (cur == o.obs + 1) cur = 0; // removes exactly the referenced element if it is still there
@@ -582,8 +595,33 @@ struct MHarness {
       for (auto& o : hist[t]) all.push_back(o);
     all.push_back(scan);
     MSpec spec;
+    spec.weak = vrt::weak_mode();
+    for (auto& o : all)
+      if (o.kind == O_INSERT && o.id > 0 && o.id < 256) spec.id_key[o.id] = (int16_t)(o.key + 1);
     MSpec::State init{};
     lin::Checker<MSpec> chk(spec, all);
+    if (spec.weak) {
+      // an "absent" verdict for key k is wrong if some successful insertion of k happens-before it and every successful
+      // removal of k (erase(iterator) included) happens-before that insertion
+      for (size_t x = 0; x < all.size(); ++x) {
+        const MOp& X = all[x];
+        bool absent = (X.kind == O_FIND || X.kind == O_ERASE || X.kind == O_CONTAINS) && !X.ok;
+        if (!absent) continue;
+        for (size_t i = 0; i < all.size(); ++i) {
+          const MOp& I = all[i];
+          if (i == x || I.kind != O_INSERT || !I.ok || I.variant == 99 || I.key != X.key || !(chk.pred[x] & (1ull << i))) continue;
+          bool removable = false;
+          for (size_t e = 0; e < all.size() && !removable; ++e) {
+            const MOp& E = all[e];
+            bool removal = (E.kind == O_ERASE && E.ok) || E.kind == O_ERASE_IT;
+            if (removal && E.key == X.key && !(chk.pred[i] & (1ull << e))) removable = true;
+          }
+          if (!removable)
+            vrt::fail("absent_after_insert_happened_before", "an operation on key %d reported 'absent' although the insertion with id %d happens-before it and no removal can follow that insertion",
+                      (int)X.key, I.id);
+        }
+      }
+    }
     bool same_key_conflict = false;
     for (size_t i = 0; i < all.size(); ++i)
       for (size_t j = 0; j < all.size(); ++j)
